@@ -50,6 +50,7 @@ PINNED = {  # (file, class or None, function) -> hash of the normalised AST
     ("functions.py", None, "endswith"): "?",
     ("function_alternatives.py", None, "endswith_with_underscore"): "?",
     ("column.py", None, "_operand"): "?",
+    ("column.py", None, "_connector_operand"): "?",
     ("function_alternatives.py", None, "element_at_using_brackets"): "?",
 }
 PIN_FILE = os.path.join(os.path.dirname(os.path.abspath(__file__)), "c05_pins.json")
@@ -59,7 +60,33 @@ def ast_hash(fn: ast.AST) -> str:
     """hash of the NORMALISED function (vlib.py2v.norm_hash): stable under docstring / comment / annotation / logging /
     local-renaming edits, sensitive to every executable difference"""
     from vlib import py2v
-    return py2v.norm_hash(fn)
+    return py2v.norm_hash(drop_unused_defaulted_params(fn))
+
+
+def drop_unused_defaulted_params(fn: ast.FunctionDef) -> ast.FunctionDef:
+    """a parameter that has a default and is never read in the body cannot change what the function does for the calls
+    the model makes (which do not pass it), e.g. a keyword accepted only for PySpark compatibility: it is left out of
+    the pinned hash.  Everything else (used parameters, their defaults, the body) stays in."""
+    import copy
+    fn = copy.deepcopy(fn)
+    used = {n.id for st in fn.body for n in ast.walk(st) if isinstance(n, ast.Name)}
+    a = fn.args
+    n_def = len(a.defaults)
+    pos = a.args
+    # only trailing unused defaulted positionals are dropped (dropping one in the middle would shift positions)
+    trailing_args, trailing_defs = list(pos), list(a.defaults)
+    while trailing_defs and trailing_args[-1].arg not in used:
+        trailing_args.pop()
+        trailing_defs.pop()
+    a.args, a.defaults = trailing_args, trailing_defs
+    kw, kwd = [], []
+    for arg, d in zip(a.kwonlyargs, a.kw_defaults):
+        if d is not None and arg.arg not in used:
+            continue
+        kw.append(arg)
+        kwd.append(d)
+    a.kwonlyargs, a.kw_defaults = kw, kwd
+    return fn
 
 
 # ------------------------------------------------------------------------------------------------
@@ -109,7 +136,7 @@ class Sym:
             if isinstance(v[1], str):
                 return ("parsecol", repr(v[1]))
             return ("litcol", repr(v[1]))
-        if v[0] in ("node", "E", "EA", "L", "N", "W"):
+        if v[0] in ("node", "E", "EA", "L", "N", "W", "WC"):
             return ("wrap", v)
         raise Untranslatable(f"Column({v!r})")
 
@@ -130,8 +157,11 @@ class Sym:
         if self.depth > 6:
             raise Untranslatable("call depth")
         from vlib import py2v
+        static = any(isinstance(d, ast.Name) and d.id == "staticmethod" for d in fn.decorator_list)
         fn = py2v.normalize_func(fn, rename_locals=False)      # no docstrings, annotations, logging, `pass`
-        params = [a.arg for a in fn.args.args][1:]  # drop self/cls
+        params = [a.arg for a in fn.args.args]
+        if not static:
+            params = params[1:]                                # drop self/cls
         defaults = fn.args.defaults
         env = {"self": ("self",)}
         for i, p in enumerate(params):
@@ -186,7 +216,7 @@ class Sym:
         if isinstance(n, ast.Name):
             if n.id in env:
                 return env[n.id]
-            if n.id in ("str", "int", "Column", "exp", "cls", "isinstance", "_operand", "get_func_from_session"):
+            if n.id in ("str", "int", "Column", "exp", "cls", "isinstance", "_operand", "_connector_operand", "get_func_from_session"):
                 return ("name", n.id)
             raise Untranslatable(f"unknown name {n.id}")
         if isinstance(n, ast.Attribute):
@@ -212,6 +242,14 @@ class Sym:
                 if x[1] != is_and:
                     return ("const", x[1])
             return ("const", is_and)
+        if isinstance(n, ast.Compare) and len(n.ops) == 1 and isinstance(n.ops[0], (ast.In, ast.NotIn)) \
+                and isinstance(n.comparators[0], ast.Tuple):
+            a = self.ev(n.left, env)
+            elts = [self.ev(e, env) for e in n.comparators[0].elts]
+            if a[0] == "cls" and all(e[0] == "cls" for e in elts):
+                r = a in elts
+                return ("const", r if isinstance(n.ops[0], ast.In) else not r)
+            raise Untranslatable("membership test " + ast.unparse(n))
         if isinstance(n, ast.Compare) and len(n.ops) == 1 and isinstance(n.ops[0], (ast.Eq, ast.NotEq, ast.Lt, ast.LtE)):
             a, b = self.ev(n.left, env), self.ev(n.comparators[0], env)
             if a[0] == "arg" and a[2] in ("int0", "int") and b == ("const", 0) and isinstance(n.ops[0], (ast.Eq, ast.NotEq)):
@@ -253,10 +291,10 @@ class Sym:
                     return ("const", isinstance(x[1], int))
                 raise Untranslatable("isinstance(<bare value of unknown type>, int)")
             raise Untranslatable("isinstance against " + repr(t))
-        if f == ("name", "_operand"):
+        if f in (("name", "_operand"), ("name", "_connector_operand")):
             if len(args) != 1 or kwargs:
                 raise Untranslatable("_operand(...) arity")
-            return ("W", args[0])
+            return ("W" if f[1] == "_operand" else "WC", args[0])
         if f == ("name", "get_func_from_session"):
             if len(args) != 1 or args[0][0] != "const":
                 raise Untranslatable("get_func_from_session argument")
@@ -317,10 +355,11 @@ def classify_bin(sym: Sym, name: str):
         if not (t[0] == "node" and set(t[2]) == {"this", "expression"}):
             raise Untranslatable(f"{name}: template {t!r}")
         cls, a, b = t[1], t[2]["this"], t[2]["expression"]
-        wa, wb = a[0] == "W", b[0] == "W"
+        wa = {"W": "WAll", "WC": "WConn"}.get(a[0], "WNone")
+        wb = {"W": "WAll", "WC": "WConn"}.get(b[0], "WNone")
         if wa != wb:
-            raise Untranslatable(f"{name}: only one operand goes through _operand")
-        if wa:
+            raise Untranslatable(f"{name}: the two operands are passed on differently ({wa} / {wb})")
+        if wa != "WNone":
             a, b = a[1], b[1]
         if cls not in BOP:
             raise Untranslatable(f"{name}: sqlglot class exp.{cls} is outside the modelled operator set")
@@ -453,25 +492,35 @@ def shapes(sym: Sym):
     return ok, inn_paren, like, fns, wraps[0], unalias == {True}, zero_as_one, notes
 
 
-EXPECTED_OPEN = {"EQ", "NEQ", "GT", "GTE", "LT", "LTE", "NullSafeEQ", "Is", "Not", "In", "Between", "Like", "ILike", "And", "Or"}
+ARITH = {"Add", "Sub", "Mul", "Div", "Mod"}
+EXPECTED_OPEN = {"EQ", "NEQ", "GT", "GTE", "LT", "LTE", "NullSafeEQ", "Is", "Not", "In", "Between", "Like", "ILike", "And", "Or"} | ARITH
+EXPECTED_OPEN_CONN = {"And", "Or"} | ARITH
 
 
-def check_operand_classes(tree):
-    """the tuple _operand tests against must be exactly the classes Build.is_open models (fail-closed)"""
+def _class_tuple(tree, name):
     for st in tree.body:
         if isinstance(st, ast.Assign) and len(st.targets) == 1 and isinstance(st.targets[0], ast.Name) \
-                and st.targets[0].id == "_UNPARENTHESIZED_OPERANDS":
+                and st.targets[0].id == name:
             if not isinstance(st.value, ast.Tuple):
-                raise Untranslatable("_UNPARENTHESIZED_OPERANDS is not a tuple literal")
+                raise Untranslatable(f"{name} is not a tuple literal")
             names = set()
             for e in st.value.elts:
                 if not (isinstance(e, ast.Attribute) and isinstance(e.value, ast.Name) and e.value.id == "exp"):
-                    raise Untranslatable("_UNPARENTHESIZED_OPERANDS element " + ast.unparse(e))
+                    raise Untranslatable(f"{name} element " + ast.unparse(e))
                 names.add(e.attr)
-            if names != EXPECTED_OPEN:
-                raise Untranslatable(f"_UNPARENTHESIZED_OPERANDS = {sorted(names)} differs from the modelled set (Build.is_open)")
-            return sorted(names)
-    return None     # no _operand machinery in this source tree
+            return names
+    raise Untranslatable(f"{name} not found")
+
+
+def check_operand_classes(tree):
+    """the tuples _operand / _connector_operand test against must be exactly the classes Build.is_open /
+    Build.is_open_conn model (fail-closed)"""
+    a, b = _class_tuple(tree, "_UNPARENTHESIZED_OPERANDS"), _class_tuple(tree, "_UNPARENTHESIZED_CONNECTOR_OPERANDS")
+    if a != EXPECTED_OPEN:
+        raise Untranslatable(f"_UNPARENTHESIZED_OPERANDS = {sorted(a)} differs from the modelled set (Build.is_open)")
+    if b != EXPECTED_OPEN_CONN:
+        raise Untranslatable(f"_UNPARENTHESIZED_CONNECTOR_OPERANDS = {sorted(b)} differs from the modelled set (Build.is_open_conn)")
+    return {"_operand": sorted(a), "_connector_operand": sorted(b)}
 
 
 def fn_name(cls: str) -> str:
@@ -497,7 +546,7 @@ def pins(repo: str):
             for m in tree.body:
                 if isinstance(m, ast.FunctionDef) and m.name == fn:
                     node = m
-        if node is None and fn == "_operand":
+        if node is None and fn in ("_operand", "_connector_operand"):
             out[f"{fname}:{fn}"] = "absent"
             continue
         if node is None:
@@ -507,7 +556,7 @@ def pins(repo: str):
 
 
 def bf(c, l, p, s, w):
-    return f"(mkBF {c} {str(l).lower()} {str(p).lower()} {str(s).lower()} {str(w).lower()})"
+    return f"(mkBF {c} {str(l).lower()} {str(p).lower()} {str(s).lower()} {w})"
 
 
 def generate(repo: str):
@@ -561,7 +610,7 @@ def generate(repo: str):
     lines.append("  end.")
     lines.append("Definition gen_rev (o : uop) : binfact :=\n  match o with")
     for u in UOPS:
-        lines.append(f"  | {u} => {bf(*rev[u]) if u in rev else '(mkBF Add true false false false)'}")
+        lines.append(f"  | {u} => {bf(*rev[u]) if u in rev else '(mkBF Add true false false WNone)'}")
     lines.append("  end.")
     b = lambda x: str(x).lower()
     lines.append("Definition gen_cfg : cfg :=\n  mkCfg gen_fwd gen_rev " + bf(*nse)
